@@ -59,6 +59,18 @@ pub trait Engine: Sync {
     fn panic_is_violation(&self) -> Option<(&'static str, &'static str)> {
         None
     }
+    /// run the cases in supervised child processes (needed when a case can abort the process)
+    fn isolate(&self) -> bool {
+        false
+    }
+    /// independent parts of a case (used to attribute a process death)
+    fn split(&self, _case: &Self::Case) -> Vec<Self::Case> {
+        vec![]
+    }
+    /// short structural description of a case (used in the detail of abort / hang violations)
+    fn describe(&self, _case: &Self::Case) -> String {
+        String::new()
+    }
 }
 
 pub struct Opts {
@@ -187,6 +199,219 @@ pub struct Summary {
     pub exit_code: i32,
 }
 
+#[derive(Clone, Debug, Default, serde::Serialize, serde::Deserialize)]
+pub struct RunOut {
+    pub stats: Stats,
+    pub harness: Vec<String>,
+    pub violations: Vec<Violation>,
+    /// for a case that killed its process: the part of it that does so alone
+    #[serde(default)]
+    pub case_json: Option<String>,
+}
+
+/// child side of process isolation: runs the cases i = offset, offset + stride, ... > after,
+/// announcing each one before executing it so that the parent can attribute an abnormal death
+pub fn worker_loop<E: Engine>(e: &E, seed: u64, runs: usize, stride: usize, offset: usize, after: i64) {
+    use std::io::Write;
+    let out = std::io::stdout();
+    let mut i = offset;
+    while i < runs {
+        if (i as i64) > after {
+            {
+                let mut o = out.lock();
+                let _ = writeln!(o, "B {i}");
+                let _ = o.flush();
+            }
+            let run_seed = mix(seed, i as u64);
+            let case = e.generate(run_seed);
+            let r = safe_execute(e, &case);
+            let ro = RunOut { stats: r.stats, harness: r.harness, violations: r.violations, case_json: None };
+            let mut o = out.lock();
+            let _ = writeln!(o, "E {i} {}", serde_json::to_string(&ro).unwrap_or_default());
+            let _ = o.flush();
+        }
+        i += stride;
+    }
+}
+
+/// runs one case alone in a fresh child process; Some(how) when the child dies
+pub fn dies_alone<E: Engine>(e: &E, exe: &std::path::Path, case: &E::Case) -> Option<String> {
+    use std::process::{Command, Stdio};
+    let path = format!("/tmp/bsim-case-{}-{:x}.json", std::process::id(), fnv(serde_json::to_string(case).unwrap_or_default().as_bytes()));
+    let doc = json!({ "format": 1, "engine": e.name(), "property": e.property(), "case": case });
+    if std::fs::write(&path, serde_json::to_string(&doc).unwrap_or_default()).is_err() {
+        return None;
+    }
+    let status = Command::new(exe)
+        .args(["exec-case", &path])
+        .stdout(Stdio::null())
+        .stderr(Stdio::null())
+        .status();
+    let _ = std::fs::remove_file(&path);
+    match status {
+        Ok(st) => {
+            use std::os::unix::process::ExitStatusExt;
+            match st.signal() {
+                Some(sig) => Some(format!("killed by signal {sig}")),
+                None => None,
+            }
+        }
+        Err(_) => None,
+    }
+}
+
+/// parent side: one supervised child process per worker; a child that dies (abort, stack
+/// overflow, signal) or stalls is attributed to the case it announced, recorded, and restarted
+/// past that case
+fn run_isolated<E: Engine>(e: &E, opts: &Opts) -> Vec<Option<RunOut>> {
+    use std::io::{BufRead, BufReader};
+    use std::process::{Command, Stdio};
+    let n = opts.runs;
+    let stride = opts.threads.max(1);
+    let results: Mutex<Vec<Option<RunOut>>> = Mutex::new((0..n).map(|_| None).collect());
+    let exe = std::env::current_exe().expect("current exe");
+    let limit = std::time::Duration::from_secs(60);
+    std::thread::scope(|s| {
+        for k in 0..stride {
+            let results = &results;
+            let exe = exe.clone();
+            s.spawn(move || {
+                let mut after: i64 = -1;
+                loop {
+                    let mut child = match Command::new(&exe)
+                        .args([
+                            "worker",
+                            "--property",
+                            e.property(),
+                            "--seed",
+                            &opts.seed.to_string(),
+                            "--runs",
+                            &n.to_string(),
+                            "--stride",
+                            &stride.to_string(),
+                            "--offset",
+                            &k.to_string(),
+                            "--after",
+                            &after.to_string(),
+                        ])
+                        .stdout(Stdio::piped())
+                        .stderr(Stdio::null())
+                        .spawn()
+                    {
+                        Ok(c) => c,
+                        Err(err) => {
+                            eprintln!("HARNESS: cannot spawn worker: {err}");
+                            return;
+                        }
+                    };
+                    let pid = child.id();
+                    let stdout = child.stdout.take().unwrap();
+                    // watchdog: kills the child when one case takes longer than the limit
+                    let current: std::sync::Arc<Mutex<Option<(usize, Instant)>>> = std::sync::Arc::new(Mutex::new(None));
+                    let done = std::sync::Arc::new(std::sync::atomic::AtomicBool::new(false));
+                    let (c2, d2) = (current.clone(), done.clone());
+                    let watchdog = std::thread::spawn(move || {
+                        while !d2.load(Ordering::SeqCst) {
+                            std::thread::sleep(std::time::Duration::from_millis(200));
+                            if let Some((_, t)) = *c2.lock().unwrap() {
+                                if t.elapsed() > limit {
+                                    unsafe {
+                                        libc::kill(pid as i32, libc::SIGKILL);
+                                    }
+                                    return true;
+                                }
+                            }
+                        }
+                        false
+                    });
+                    let mut open: Option<usize> = None;
+                    for line in BufReader::new(stdout).lines() {
+                        let line = match line {
+                            Ok(l) => l,
+                            Err(_) => break,
+                        };
+                        if let Some(rest) = line.strip_prefix("B ") {
+                            if let Ok(i) = rest.trim().parse::<usize>() {
+                                open = Some(i);
+                                *current.lock().unwrap() = Some((i, Instant::now()));
+                            }
+                        } else if let Some(rest) = line.strip_prefix("E ") {
+                            let mut parts = rest.splitn(2, ' ');
+                            let i = parts.next().and_then(|x| x.parse::<usize>().ok());
+                            let body = parts.next().unwrap_or("");
+                            if let (Some(i), Ok(ro)) = (i, serde_json::from_str::<RunOut>(body)) {
+                                results.lock().unwrap()[i] = Some(ro);
+                                after = i as i64;
+                                open = None;
+                                *current.lock().unwrap() = None;
+                            }
+                        }
+                        // anything else is output of the code under test (e.g. println! in the library)
+                    }
+                    let status = child.wait();
+                    done.store(true, Ordering::SeqCst);
+                    let hung = watchdog.join().unwrap_or(false);
+                    match open {
+                        None => return, // clean end of this worker's share
+                        Some(i) => {
+                            let how = match &status {
+                                Ok(st) => {
+                                    use std::os::unix::process::ExitStatusExt;
+                                    match st.signal() {
+                                        Some(sig) => format!("killed by signal {sig}"),
+                                        None => format!("exit status {:?}", st.code()),
+                                    }
+                                }
+                                Err(err) => format!("wait failed: {err}"),
+                            };
+                            let (prop, class) = if hung { (e.property(), "hang") } else { (e.property(), "abort") };
+                            let mut ro = RunOut::default();
+                            ro.stats.oracle_evals = 1;
+                            ro.stats.trace.push(format!("{class}:{how}"));
+                            // attribute the death to one part of the case: each part is run
+                            // alone in a fresh child
+                            let case = e.generate(mix(opts.seed, i as u64));
+                            let mut what = e.describe(&case);
+                            if !hung {
+                                for sub in e.split(&case) {
+                                    if let Some(h) = dies_alone(e, &exe, &sub) {
+                                        what = format!("{} ({h})", e.describe(&sub));
+                                        ro.case_json = serde_json::to_string(&sub).ok();
+                                        break;
+                                    }
+                                }
+                            }
+                            ro.violations.push(Violation {
+                                property: prop.to_string(),
+                                class: class.to_string(),
+                                event: None,
+                                detail: if hung {
+                                    format!("the worker process made no progress for {} s on this case and was killed ;; {what}", limit.as_secs())
+                                } else {
+                                    format!("the worker process died while executing this case: {how} ;; {what}")
+                                },
+                                focus: None,
+                            });
+                            results.lock().unwrap()[i] = Some(ro);
+                            after = i as i64;
+                            // restart past the fatal case
+                        }
+                    }
+                }
+            });
+        }
+    });
+    let mut v = results.into_inner().unwrap();
+    for r in v.iter_mut() {
+        if r.is_none() {
+            let mut ro = RunOut::default();
+            ro.harness.push("a worker produced no result for this run".to_string());
+            *r = Some(ro);
+        }
+    }
+    v
+}
+
 /// per-run digests (every library result, token byte string, event and counter of the run):
 /// the determinism proof compares them across repetitions, worker counts and processes
 pub fn digests<E: Engine>(e: &E, seed: u64, runs: usize, threads: usize) -> Vec<(u64, u64)> {
@@ -241,7 +466,26 @@ pub fn run_check<E: Engine>(e: &E, opts: &Opts) -> Summary {
             }
         };
         regress_replayed += 1;
-        let r = safe_execute(e, &case);
+        let r = if e.isolate() {
+            // a trace that kills its process is replayed in a child
+            let exe = std::env::current_exe().expect("current exe");
+            match dies_alone(e, &exe, &case) {
+                Some(how) => {
+                    let mut r = CaseResult::default();
+                    r.violations.push(Violation {
+                        property: prop.clone(),
+                        class: "abort".to_string(),
+                        event: None,
+                        detail: format!("the worker process died while executing this case: {how} ;; {}", e.describe(&case)),
+                        focus: None,
+                    });
+                    r
+                }
+                None => safe_execute(e, &case),
+            }
+        } else {
+            safe_execute(e, &case)
+        };
         for v in r.violations.iter().filter(|v| v.property == prop) {
             match known.matches(v) {
                 Some(id) => {
@@ -260,32 +504,32 @@ pub fn run_check<E: Engine>(e: &E, opts: &Opts) -> Summary {
 
     // 2. seeded search
     let n = opts.runs;
-    let next = AtomicUsize::new(0);
-    struct RunOut {
-        stats: Stats,
-        harness: Vec<String>,
-        violations: Vec<Violation>,
-    }
-    let results: Mutex<Vec<Option<RunOut>>> = Mutex::new((0..n).map(|_| None).collect());
-    std::thread::scope(|s| {
-        for _ in 0..opts.threads.max(1) {
-            s.spawn(|| loop {
-                let i = next.fetch_add(1, Ordering::SeqCst);
-                if i >= n {
-                    break;
-                }
-                let run_seed = mix(opts.seed, i as u64);
-                let case = e.generate(run_seed);
-                let r = safe_execute(e, &case);
-                results.lock().unwrap()[i] = Some(RunOut {
-                    stats: r.stats,
-                    harness: r.harness,
-                    violations: r.violations,
+    let results: Vec<Option<RunOut>> = if e.isolate() {
+        run_isolated(e, opts)
+    } else {
+        let next = AtomicUsize::new(0);
+        let results: Mutex<Vec<Option<RunOut>>> = Mutex::new((0..n).map(|_| None).collect());
+        std::thread::scope(|s| {
+            for _ in 0..opts.threads.max(1) {
+                s.spawn(|| loop {
+                    let i = next.fetch_add(1, Ordering::SeqCst);
+                    if i >= n {
+                        break;
+                    }
+                    let run_seed = mix(opts.seed, i as u64);
+                    let case = e.generate(run_seed);
+                    let r = safe_execute(e, &case);
+                    results.lock().unwrap()[i] = Some(RunOut {
+                        stats: r.stats,
+                        harness: r.harness,
+                        violations: r.violations,
+                        case_json: None,
+                    });
                 });
-            });
-        }
-    });
-    let results = results.into_inner().unwrap();
+            }
+        });
+        results.into_inner().unwrap()
+    };
 
     let mut counters: BTreeMap<String, u64> = BTreeMap::new();
     let mut distinct: BTreeSet<u64> = BTreeSet::new();
@@ -343,7 +587,17 @@ pub fn run_check<E: Engine>(e: &E, opts: &Opts) -> Summary {
     if let Some((i, v)) = &first_new {
         let run_seed = mix(opts.seed, *i as u64);
         let case = e.generate(run_seed);
-        let (small, v2) = minimise(e, &case, v, &known);
+        // a case that kills or stalls its process cannot be re-executed in this one
+        let (small, v2) = if v.class == "abort" || v.class == "hang" {
+            // the part of the case that kills a process alone, when the supervisor found one
+            let part = results[*i]
+                .as_ref()
+                .and_then(|r| r.case_json.as_ref())
+                .and_then(|j| serde_json::from_str::<E::Case>(j).ok());
+            (part.unwrap_or_else(|| case.clone()), v.clone())
+        } else {
+            minimise(e, &case, v, &known)
+        };
         let path = write_replay(e, opts, run_seed, &small, &v2);
         println!("violation: class={} run_seed={} {}", v2.class, run_seed, v2.detail);
         println!("VIOLATION property={} replay={}", v2.property, path);
@@ -431,6 +685,40 @@ pub fn run_check<E: Engine>(e: &E, opts: &Opts) -> Summary {
         exit_code
     );
     Summary { exit_code }
+}
+
+/// replay for engines whose cases can kill the process: first alone in a child
+pub fn replay_isolated<E: Engine>(e: &E, doc: &Value, verif_dir: &str) -> i32 {
+    let known = known::load(verif_dir);
+    let case: E::Case = match serde_json::from_value(doc["case"].clone()) {
+        Ok(c) => c,
+        Err(err) => {
+            eprintln!("HARNESS: replay file does not parse: {err}");
+            return 2;
+        }
+    };
+    let exe = std::env::current_exe().expect("current exe");
+    if let Some(how) = dies_alone(e, &exe, &case) {
+        let v = Violation {
+            property: e.property().to_string(),
+            class: "abort".to_string(),
+            event: None,
+            detail: format!("the worker process died while executing this case: {how} ;; {}", e.describe(&case)),
+            focus: None,
+        };
+        return match known.matches(&v) {
+            Some(id) => {
+                println!("KNOWN-FINDING: property={} {} [{}]", v.property, v.detail, id);
+                0
+            }
+            None => {
+                println!("violation: class={} {}", v.class, v.detail);
+                println!("VIOLATION property={} replay=<this file>", v.property);
+                1
+            }
+        };
+    }
+    replay(e, doc, verif_dir)
 }
 
 pub fn replay<E: Engine>(e: &E, doc: &Value, verif_dir: &str) -> i32 {
